@@ -9,6 +9,7 @@ from ..idx import index
 from ..px import OK, PX, RAISE, Outcomes
 from ..pxv import Obj, Sym
 from ..te import ClassRef, FuncRef, Member
+from .util import anchor_attrs
 from .util import const, fut, member, self_obj, text, who_may_call
 
 ASH = "bellows.ash"
@@ -59,6 +60,7 @@ def r04_1(ctx):
     """Receiver transfer function: for every frmNum, expected number (0..7) and reTx flag, the payload is handed
     up iff frmNum == expected; then expected' = (expected+1) % 8 else unchanged; exactly one ACK/NAK is written
     directly (no await, timer or task), it carries expected', and it is an ACK when the frame was accepted."""
+    anchor_attrs(ctx, "AshProtocol", "_rx_seq", "_ezsp_protocol")
     repo = ctx.repo
     f = repo.func(f"{ASH}:AshProtocol.data_frame_received")
     ctx.fn(f)
@@ -131,6 +133,7 @@ def r04_2(ctx):
     """frame_received routes each of the six frame classes: DATA -> at most one data_received and no reset
     notification; ACK/NAK/RST -> no upward call; RSTACK and ERROR -> exactly one reset_received(frame's code) on
     every path (whatever the link state); no class falls into the TypeError branch."""
+    anchor_attrs(ctx, "AshProtocol", "_rx_seq", "_tx_seq", "_ncp_state", "_pending_data_frames")
     repo = ctx.repo
     f = repo.func(f"{ASH}:AshProtocol.frame_received")
     ctx.fn(f)
@@ -196,6 +199,7 @@ def r04_3(ctx):
     """RSTACK restarts numbering: on every path of rstack_frame_received both frame counters are set to zero
     before the upward notification, whose argument is the frame's own reset code, and the link state becomes
     CONNECTED."""
+    anchor_attrs(ctx, "AshProtocol", "_rx_seq", "_tx_seq", "_ncp_state")
     repo = ctx.repo
     f = repo.func(f"{ASH}:AshProtocol.rstack_frame_received")
     ctx.fn(f)
@@ -242,11 +246,14 @@ def r04_3(ctx):
 def r04_4(ctx):
     """The expected frame number is written only by the initialiser and by functions explored by R04.1 (accept
     branch) and R04.3 (RSTACK); the two handlers are invoked only from frame_received."""
-    if "rx_seq_visited" not in ctx.run.shared or len(ctx.run.shared["rx_seq_visited"]) < 2:
-        for rid in ("R04.1", "R04.3"):
-            from ..core import RULES, RuleCtx
-
-            RULES[rid].fn(RuleCtx(ctx.run, RULES[rid]))
+    anchor_attrs(ctx, "AshProtocol", "_rx_seq")
+    cls = ash_cls(ctx)
+    px = PX(ctx.repo, inline=inline_ash(stop=("_write_frame", "_cancel_pending_data_frames", "_change_ack_timeout")))
+    px.explore(ctx.repo.func(f"{ASH}:AshProtocol.data_frame_received"),
+               lambda: (self_obj(cls, {"_rx_seq": 3}), {"frame": frame_obj(ctx, "DataFrame", frm_num=3, re_tx=0, ack_num=Sym("ack"), ezsp_frame=Sym("payload"))}))
+    px.explore(ctx.repo.func(f"{ASH}:AshProtocol.rstack_frame_received"),
+               lambda: (self_obj(cls, {"_pending_data_frames": {}}), {"frame": frame_obj(ctx, "RStackFrame", reset_code=Sym("code"), version=2)}))
+    ctx.run.shared.setdefault("rx_seq_visited", set()).update(px.visited)
     visited = ctx.run.shared["rx_seq_visited"]
     confined_writers(ctx, "_rx_seq", visited, {"AshProtocol.__init__"}, "R04.1/R04.3")
     for name in ("data_frame_received", "rstack_frame_received"):
@@ -302,6 +309,7 @@ def r05_send_skeleton(ctx):
     with upward notification and nothing else does (R05.7); normal return iff the last wait ended acknowledged,
     the pending entry is removed on every exit (R05.8); everything happens inside the single-slot semaphore
     (R05.9)."""
+    anchor_attrs(ctx, "AshProtocol", "_tx_seq", "_rx_seq", "_ncp_state", "_pending_data_frames", "_t_rx_ack", "_send_data_frame_semaphore")
     N = const(ctx, ASH, "ACK_TIMEOUTS", int)
     ctx.anchor(N >= 1, "ACK_TIMEOUTS >= 1")
     f, px, paths, ns = explore_send(ctx)
@@ -423,10 +431,11 @@ def r05_2(ctx):
                         f"counter becomes {p.store['self'].get('_tx_seq')!r} (must be {t} and {(t + 1) % 8})",
                         func=f, trace=p.trace())
         ctx.run.shared.setdefault("tx_seq_visited", set()).update(px.visited)
-    if "R04.3" not in [r.id for r, _, _ in ctx.run.results]:
-        from ..core import RULES, RuleCtx
-
-        RULES["R04.3"].fn(RuleCtx(ctx.run, RULES["R04.3"]))
+    # RSTACK handling also (re)sets the counter: explore it here so that this rule does not depend on another rule's run
+    rs = ctx.repo.func(f"{ASH}:AshProtocol.rstack_frame_received")
+    pxr = PX(ctx.repo, inline=inline_ash(stop=("_write_frame", "_cancel_pending_data_frames", "_change_ack_timeout")))
+    pxr.explore(rs, lambda: (self_obj(ash_cls(ctx), {"_pending_data_frames": {}}), {"frame": frame_obj(ctx, "RStackFrame", reset_code=Sym("code"), version=2)}))
+    ctx.run.shared["tx_seq_visited"].update(pxr.visited)
     confined_writers(ctx, "_tx_seq", ctx.run.shared["tx_seq_visited"], {"AshProtocol.__init__"}, "R05.1/R05.2/R04.3")
 
 
@@ -503,6 +512,7 @@ def r05_7(ctx):
     """Entering the failed state (and an ERROR frame) stores FAILED, fails every pending acknowledgement future
     that is still open with NcpFailure, and tells the upper layer exactly once with the reason, on every path and
     from every prior link state."""
+    anchor_attrs(ctx, "AshProtocol", "_ncp_state", "_pending_data_frames")
     repo = ctx.repo
     cls = ash_cls(ctx)
     ns = repo.cls(ASH, "NcpState").members()
@@ -617,6 +627,7 @@ def _enclosing_calls(root, target):
 def r01_2(ctx):
     """Acknowledgement coverage: for every ackNum a in 0..7, _handle_ack completes exactly the open pending frames
     f with f in {a - k mod 8 | 1 <= k <= TX_K} (with True) and leaves completed futures alone."""
+    anchor_attrs(ctx, "AshProtocol", "_pending_data_frames")
     repo = ctx.repo
     f = repo.func(f"{ASH}:AshProtocol._handle_ack")
     ctx.fn(f)
